@@ -572,6 +572,10 @@ func (e *specEnv) evalCall(s *SExpr) T {
 		// bigval(p): mathematical value of *big.Int p
 		p := e.eval(s.Args[0])
 		return mkMath(x.bigVal(e.cur(), p.S))
+	case "div", "mod":
+		// Euclidean (SMT-LIB) division for specifications over non-negative values
+		a, b := e.eval(s.Args[0]), e.eval(s.Args[1])
+		return mkMath(fmt.Sprintf("(%s %s %s)", name, a.S, b.S))
 	case "arr":
 		// arr(s): the element array of a slice whose offset is 0 (index i of s is arr(s)[i])
 		v := e.eval(s.Args[0])
